@@ -22,6 +22,19 @@ CHECKS = {
         'Tie: exhaustive parameter grid x attempts and real String/List/SingleList graders vs the model, compared exactly.',
    note=PROOF_NOTE + ' Floats enter only through round() and grade*credit: cases within 1e-9 of a rounding tie are counted (float_tie) and skipped; grades compared within 1e-12.',
    technique='Lean 4 proof (monotone rounding, case analysis) + exhaustive-grid correspondence', design='§6 C17'),
+ 'C03': dict(
+   text='Token-level PEG model of the expression grammar with the library\'s node evaluators over an arbitrary operator algebra; proved: for every expression tree, parsing its '
+        'minimally parenthesised rendering succeeds and evaluates to the textbook value (precedence/associativity/signed exponents/parentheses for all operator sequences of all lengths), spaces irrelevant. '
+        'Tie: exact parse-tree equality with pyparsing on generated/mutated strings, evaluator value vs exact rational model value, independent precedence-climbing oracle, rejection families.',
+   note=PROOF_NOTE + ' Partial: numeric leaves (float literal rounding, non-integer/complex powers, arrays, numpy functions) are outside the model; lexer round trip with arbitrary tab/newline placement and the rejection '
+        'families are established by the correspondence run, not yet by theorem.',
+   technique='Lean 4 proof (parser round trip by strong induction, phrase predicates) + differential tree/value correspondence', design='§6 C03'),
+ 'C10': dict(
+   text='Side-effecting model of the parser (scratch never rolled back on abandoned alternatives) proved to report exactly the names of the resulting tree; parser object (cache + scratch + finally-reset) '
+        'modelled as a state machine with theorem: after ANY history of parse calls the outcome for a string equals a fresh parser\'s. '
+        'Tie: usage sets and trees vs pyparsing on generated derivations; call histories (exhaustive short, random long, shared module PARSER with interleaved evaluations) vs model and vs fresh parser.',
+   note=PROOF_NOTE + ' Aliasing of the cached sets (rebinding vs clear()) is represented by value semantics in the model and checked on the real object per call (scratch empty, cache keys).',
+   technique='Lean 4 proof (invariant over histories; doomed-alternative lemma for usage) + history correspondence', design='§6 C10'),
 }
 NA_REASON = 'check not built yet in this round (planned: see DESIGN.md §6); not claimed until its model, theorems and correspondence exist'
 
